@@ -12,6 +12,8 @@ REPERTOIRE = {
     "hebr": [("alef-hb", 0x5D0), ("bet-hb", 0x5D1)],
     "deva": [("ka-deva", 0x915), ("kha-deva", 0x916)],
     "kana": [("a-hira", 0x3042), ("ka-kata", 0x30AB)],
+    "armn": [("ayb-arm", 0x531), ("ben-arm", 0x532)],
+    "geor": [("an-geor", 0x10D0), ("ban-geor", 0x10D1)],
     "digits": [("one", 0x31), ("two", 0x32), ("one-ar", 0x661)],
     "punct": [("period", 0x2E), ("comma", 0x2C), ("hyphen", 0x2D), ("space", 0x20)],
     "marks": [("acutecomb", 0x301), ("gravecomb", 0x300), ("fatha-ar", 0x64E)],
@@ -41,8 +43,52 @@ def repertoire(rng, nmin=6, nmax=14, force=None):
     return glyphs
 
 
+def chain_kerning_font(rng, writer="kern1"):
+    """Four or more left-to-right scripts whose mixed-script kern1 groups CHAIN the script buckets of the kern writer
+    ({A,B}, {C,D}, {B,C} in a random dictionary order), plus in-script pairs for every script."""
+    scripts = rng.sample(["latin", "cyrl", "grek", "armn", "geor"], rng.choice([4, 4, 5]))
+    gl = []
+    for sc in scripts:
+        gl += REPERTOIRE[sc][:2]
+    gl.append(("period", 0x2E))
+    names = [n for n, _ in gl]
+    glyphs = {n: {"cs": [box()], "comps": [], "anchors": [], "w": rng.randint(300, 700) * PS, "h": 0, "u": [cp]} for n, cp in gl}
+    first = {sc: REPERTOIRE[sc][0][0] for sc in scripts}
+    second = {sc: REPERTOIRE[sc][1][0] for sc in scripts}
+    links = [(scripts[k], scripts[k + 1]) for k in range(len(scripts) - 1)]
+    rng.shuffle(links)
+    # put the two outer links first and the linking ones after them as often as not
+    if rng.random() < 0.6:
+        links.sort(key=lambda ab: (scripts.index(ab[0]) % 2, rng.random()))
+    groups, entries = [], []
+    used = set()
+    for k, (a, b) in enumerate(links):
+        members = [m for m in (first[a], first[b]) if m not in used]
+        if len(members) < 2:
+            members = [m for m in (first[a], first[b], second[a], second[b]) if m not in used][:2]
+        if len(members) < 2:
+            continue
+        used |= set(members)
+        groups.append({"name": f"public.kern1.x{k}", "side": 1, "members": members})
+        entries.append([f"public.kern1.x{k}", second[rng.choice([a, b])], rng.choice([-80, -40, 40, 60, -20])])
+    for sc in scripts:
+        if rng.random() < 0.7:
+            entries.append([second[sc], first[sc], rng.choice([-30, 24, 10, -50]) * 4])
+    rng.shuffle(entries) if rng.random() < 0.3 else None
+    fea = ""
+    if rng.random() < 0.5:
+        tags = {"latin": "latn", "cyrl": "cyrl", "grek": "grek", "armn": "armn", "geor": "geor"}
+        fea = "\n".join(["languagesystem DFLT dflt;"] + [f"languagesystem {tags[sc]} dflt;" for sc in scripts])
+    ufo = {"glyphs": glyphs, "order": names, "glyphNames": names,
+           "info": {"unitsPerEm": 1000, "ascender": 800, "descender": -200, "familyName": "KernChain", "styleName": "Regular"},
+           "kerning": entries, "kernScale": 4, "groups": [[g["name"], g["members"]] for g in groups], "fea": fea, "lib": {}}
+    return {"ufo": ufo, "q": 1, "groupsAbs": groups, "writer": writer}
+
+
 def kerning_font(rng, writer="kern1"):
     """abstract ufo + kerning description; values at scale 4 (quarter units)"""
+    if rng.random() < 0.2:
+        return chain_kerning_font(rng, writer)
     gl = repertoire(rng)
     names = [n for n, _ in gl]
     glyphs = {}
